@@ -35,9 +35,10 @@ void fail(const char *rule, const char *site, const std::string &d) {
     rt::violation("C14", rule, site, d + " | " + histTail());
 }
 
+// what reading back an element made from v gives (bytes wrap, the two double zeros decode to sentinels)
 template<class T> int64_t normv(int64_t v) {
-    if constexpr (std::is_same_v<T, unsigned char>) return v & 0xff;
-    else return v;
+    if constexpr (std::is_base_of_v<Tracked, T>) return v;
+    else return Elem<T>::val(Elem<T>::make(v));
 }
 
 template<class T>
@@ -202,6 +203,15 @@ struct Runner {
             log("new#" + std::to_string(i) + "{il" + std::to_string(k) + "}");
             int64_t v = nextVal;
             nextVal += 4;
+            if (k >= 2 && rng.chance(350)) {
+                // a named list handed to two arrays: the list is const, building the first array must not consume it
+                std::initializer_list<T> il = {E::make(v), E::make(v + 1), E::make(v + 2)};
+                k = 3;
+                { Arr first(il); if (first.size() != 3) fail("model-mismatch", op, "size of an array built from a 3-element list"); }
+                size_t q = 0;
+                for (const T &e : il) { if (E::val(e) != normv<T>(v + (int64_t) q)) { fail("initializer-list-consumed", op, "building an Array from a std::initializer_list changed the list's own elements"); break; } ++q; }
+                x.a.reset(new Arr(il));
+            } else
             switch (k) {
                 case 0: x.a.reset(new Arr(std::initializer_list<T>{})); break;
                 case 1: x.a.reset(new Arr({E::make(v)})); break;
